@@ -564,9 +564,10 @@ class Automaton:
         ERROR 'Unknown task.' and the requester is disconnected;
       * LOG records are forwarded to the owner while the owner is connected;
       * an ERROR is forwarded to the owner only while the task is open
-        (RUNNING/DONE): `strict_errors`.  The code forwards it for cancelled
-        and delivered tasks too (finding); with strict_errors=False the
-        automaton follows the code."""
+        (RUNNING/DONE); errors of cancelled, delivered or unknown
+        compilations are discarded (`strict_errors`; the code before fix
+        3a23d26 forwarded them - that is reported as
+        `stale-error-forwarded:*` if it comes back)."""
 
     def __init__(self, strict_errors=True):
         self.conn = set()
@@ -778,12 +779,36 @@ class Session:
                             {'history': hist}, True))
         elif not wf:
             self.oracles_on = False
-        diverged = any(not f.sig.startswith('stale-error-forwarded')
+        # what was really written (outgoing thread's code run after the
+        # handler): closes, and puts that reached an open connection
+        pool = list(delivered)
+        written = []
+        for r in cli:
+            if r.startswith('X.'):
+                written.append(r)
+            elif r in pool:
+                pool.remove(r)
+                written.append(r)
+        if self.oracles_on and wf and not raised:
+            lost = [r for r in cli if not r.startswith('X.')
+                    and r not in written]
+            if lost:
+                self.findings.append(Finding(
+                    f'reply-never-written:{k[0]}:{st_before}',
+                    f'{ev} (task state {st_before}): the server put {lost} '
+                    'for the client and then closed the connection in the '
+                    'same handler; send_outgoing skips closed connections, '
+                    'so the reply is never written (with the real outgoing '
+                    'thread: 0 of 2000 runs)',
+                    {'history': hist, 'put': cli, 'written': written}, True))
+        diverged = any(not f.sig.startswith(('stale-error-forwarded',
+                                             'reply-never-written'))
                        for f in self.findings[nfind:])
         self.lines.append(ev)
         self.records.append({
             'ev': ev, 'cli': ' '.join(cli), 'down': ' '.join(down),
             'state': state, 'raised': raised, 'wf': wf, 'hist': hist,
+            'written': ' '.join(written),
             'oracles': self.oracles_on,
             'abs': {t: auto.state_of(t) for t in auto.task}
             if self.oracles_on else None})
@@ -840,6 +865,10 @@ class Session:
                     problems.append(
                         f'client-visible model=[{d.get("out")}] '
                         f'impl=[{rec["cli"]}]')
+                if d.get('written', '') != rec['written']:
+                    problems.append(
+                        f'written model=[{d.get("written")}] '
+                        f'impl=[{rec["written"]}]')
                 if d.get('down', '') != rec['down']:
                     problems.append(f'down model=[{d.get("down")}] '
                                     f'impl=[{rec["down"]}]')
@@ -1358,8 +1387,18 @@ def new_client_compiler(conn):
 
 
 def chain_text(e: BaseException) -> str:
+    """str(e) and the text of everything in its __cause__/__context__ chain
+    (plus the formatted traceback): where "carrying the original message" is
+    looked for."""
     import traceback
-    return ''.join(traceback.format_exception(type(e), e, e.__traceback__))
+    parts, seen, x = [], set(), e
+    while x is not None and id(x) not in seen:
+        seen.add(id(x))
+        parts.append(str(x))
+        x = x.__cause__ or x.__context__
+    parts.append(''.join(
+        traceback.format_exception(type(e), e, e.__traceback__)))
+    return '\n'.join(parts)
 
 
 def bubbling_case(seed, nmanagers, depth, how, exc_name, with_ok_first):
@@ -1565,13 +1604,15 @@ def client_checks(ck_rng, thorough):
                     f'{cap.got}, the property requires {exp} with logs '
                     f'{logs_before}', {'sequence': line}, True))
 
-    # (1b) `_recv_log_error_until_empty` as it is (incl. the known defect)
-    for k in range(0, 4):
+    # (1b) `_recv_log_error_until_empty`: pending LOGs are passed through,
+    # a pending ERROR raises, anything else is a protocol error
+    for k in range(0, 5 if thorough else 4):
         for seq in it.product(toks, repeat=k):
             c = FakeConn('peer', [])
             comp = new_client_compiler(c)
             for tok, x in seq:
                 c.inbox.append(wire(tok, x))
+            del cap.got[:]
             try:
                 comp._recv_log_error_until_empty()
                 got = 'clean'
@@ -1584,10 +1625,77 @@ def client_checks(ck_rng, thorough):
                 got = 'attributeError'
             except Exception as e:
                 got = f'crashed {type(e).__name__}'
-            lines.append('predrain ' + ' '.join(
-                tok if x is None else f'{tok} {x}' for tok, x in seq))
+            line = 'predrain ' + ' '.join(
+                tok if x is None else f'{tok} {x}' for tok, x in seq)
+            lines.append(line)
             impl.append(got)
             stats['predrain_sequences'] += 1
+            logs_before, exp = [], 'clean'
+            for tok, x in seq:
+                if tok == 'L':
+                    logs_before.append(f'log-{x}')
+                elif tok == 'E':
+                    exp = f'raised {x}'
+                    break
+                else:
+                    exp = 'unexpected'
+                    break
+            if got != exp or cap.got != logs_before:
+                findings.append(Finding(
+                    'client-predrain:' + got.split()[0],
+                    f'_recv_log_error_until_empty on {line}: got {got} with '
+                    f'logs {cap.got}, the property requires {exp} with logs '
+                    f'{logs_before} (pending LOG records must not make the '
+                    'next call fail)', {'sequence': line}, True))
+
+    # (1c) `_send_recv` as a whole: pending messages, then the arriving ones
+    class Peer0(FakeConn):
+        __slots__ = ('replies',)
+
+        def send(self, m):
+            self.sent.append(m)
+            self.inbox.extend(self.replies)
+            self.replies = []
+    short = [('L', 3), ('E', 5), ('R', 6), ('S', 'done')]
+    for kp in range(0, 3):
+        for pend in it.product(short, repeat=kp):
+            for ka in range(0, 3):
+                for arr in it.product(short, repeat=ka):
+                    c = Peer0('peer', [])
+                    c.replies = [wire(tok, x) for tok, x in arr]
+                    for tok, x in pend:
+                        c.inbox.append(wire(tok, x))
+                    comp = new_client_compiler(c)
+                    try:
+                        msg, payload = comp._send_recv(M.STATUS, uuid.uuid4())
+                        got = 'returned ' + (
+                            f'R.0.{payload[1]}' if msg == M.RESULT else
+                            f'S.0.{payload.name.lower()}')
+                    except RuntimeError as e:
+                        cause = e.__cause__
+                        t = str(cause)
+                        if isinstance(cause, EOFError):
+                            got = 'blocked'
+                        elif isinstance(cause, RuntimeError) \
+                                and t.startswith('boom-'):
+                            got = f'wrapped {t.split("-")[1]}'
+                        elif isinstance(cause, RuntimeError) \
+                                and 'Unexpected message' in t:
+                            got = 'wrapped -'
+                        else:
+                            got = f'crashed {type(cause).__name__}'
+                        if not str(e).startswith(
+                                'Server connection unexpectedly closed'):
+                            got += ' unwrapped'
+                    except Exception as e:
+                        got = f'crashed {type(e).__name__}'
+
+                    def fmt(seq):
+                        return ' '.join(tok if x is None else f'{tok} {x}'
+                                        for tok, x in seq)
+                    lines.append(f'sendrecv {fmt(pend)} / {fmt(arr)}')
+                    impl.append(got)
+                    stats['sendrecv_cases'] += 1
 
     # (2) the API calls
     class Peer(FakeConn):
@@ -1643,6 +1751,8 @@ def client_checks(ck_rng, thorough):
                     f'RuntimeError carrying the message: {o[0]} {o[1]!r}',
                     {'method': method}, True))
             elif (ORIGINAL + method) not in str(o[1]):
+                # observation, not a violation: the message is carried by the
+                # __cause__ chain (what test_errors_raised_locally checks)
                 stats['error_text_only_in_cause_chain'] += 1
         # a reply of the wrong kind is not returned as a value
         wrong = reply_for['cancel' if method != 'cancel' else 'status']
@@ -1695,6 +1805,94 @@ def client_checks(ck_rng, thorough):
     return lines, impl, findings, stats
 
 
+# ================================================ the outgoing thread's code
+def outgoing_checks():
+    """The real `send_outgoing` when a client has vanished.  Real sockets
+    (measured): after the peer closed, the second `send` raises
+    BrokenPipeError; after a close with unread data the first raises
+    ConnectionResetError.  Oracles: the thread survives every EOF/OSError
+    send failure, does not touch the tables (disconnecting is the main
+    loop's job), other clients are still answered, and the main loop's EOF
+    for the vanished client is an ordinary disconnect.
+    Returns (driver lines, impl, findings)."""
+    from bqskit.runtime.message import RuntimeMessage as M
+    findings, lines, impl = [], [], []
+    excs = {'eof': EOFError(), 'reset': ConnectionResetError(104, 'reset'),
+            'brokenpipe': BrokenPipeError(32, 'Broken pipe'),
+            'oserror': OSError(9, 'Bad file descriptor'),
+            'nonoserror': TypeError('cannot pickle')}
+    for name, exc in excs.items():
+        sim = Sim(2)
+        r = Runner(sim)
+        for ev in ('connect 0', 'connect 1', 'submit 0 0', 'submit 1 1'):
+            r.apply(ev)
+        before = r.render_state()
+        # client 0 is gone; a LOG of its task is forwarded to it
+        sim.conns[0].send_error = exc
+        sim.s.outgoing.put((sim.conns[0], M.LOG, 'log-4'))
+        survived, died_with = True, ''
+        try:
+            sim.cls.send_outgoing(sim.s)
+        except Drained:
+            pass
+        except BaseException as e:     # leaves `while True`: the thread dies
+            survived = False
+            died_with = type(e).__name__
+        same = r.render_state() == before
+        lines.append(f'outgoing {name}')
+        impl.append(f'{"true" if survived else "false"} '
+                    f'{"same" if same else "changed"}')
+        scen = ['connect 0', 'connect 1', 'submit 0 0', 'submit 1 1',
+                f'<client 0 vanishes: send raises {type(exc).__name__}>',
+                'log 0 4']
+        if name == 'nonoserror':
+            continue                    # not a peer failure: model only
+        if not survived:
+            findings.append(Finding(
+                f'outgoing-thread-dies:{died_with}',
+                f'a client vanished and `conn.send` raised {died_with} in '
+                'ServerBase.send_outgoing: the exception leaves the `while '
+                'True` loop, the outgoing thread ends while `running` stays '
+                'True - from then on nothing is ever written to any client '
+                'or employee (every client hangs)',
+                {'scenario': scen, 'running_after': bool(sim.s.running)},
+                True))
+            continue
+        if not same:
+            findings.append(Finding(
+                f'outgoing-thread-mutates-tables:{type(exc).__name__}',
+                'send_outgoing changed the server tables (it runs on a '
+                'second thread; disconnecting is the main loop\'s job): '
+                f'{before} -> {r.render_state()}', {'scenario': scen}, True))
+        # another client's request is still answered
+        cli, _, delivered = r.render_log(r.apply('status 1 1'))
+        if 'S.1.running' not in delivered:
+            findings.append(Finding(
+                f'other-client-unanswered-after:{type(exc).__name__}',
+                f'after the failed send, `status 1 1` was answered {cli} / '
+                f'written {delivered}', {'scenario': scen + ['status 1 1']},
+                True))
+        # the main loop now sees the EOF of the vanished client
+        nse = len(sim.system_errors)
+        sim.deliver(sim.conns[0], sim.D.CLIENT, EOFError)
+        if len(sim.system_errors) > nse or not sim.s.running:
+            err = (sim.system_errors or ['?'])[-1].strip()
+            exc_name = err.splitlines()[-1].split(':')[0]
+            findings.append(Finding(
+                f'double-disconnect:{exc_name}',
+                f'after {type(exc).__name__} in send_outgoing the main '
+                'loop\'s handling of the EOF of the same connection raised '
+                f'{exc_name} and shut the whole server down',
+                {'scenario': scen + ['<main thread: EOF on client 0>'],
+                 'error': err[-300:]}, True))
+        elif sim.conns[0] in sim.s.clients:
+            findings.append(Finding(
+                'vanished-client-not-disconnected',
+                'the EOF of the vanished client did not remove it',
+                {'scenario': scen}, True))
+    return lines, impl, findings
+
+
 # ====================================================== attached server (small)
 def attached_checks():
     """AttachedServer shares the handlers; a client disconnect (and therefore
@@ -1709,7 +1907,7 @@ def attached_checks():
         sim = Sim(2, kind='attached')
         r = Runner(sim)
         sim.new_client(0)
-        auto = Automaton(strict_errors=False)
+        auto = Automaton(strict_errors=True)
         auto.expected('connect 0')
         for i, ev in enumerate(hist):
             if not auto.wf(ev):
@@ -1954,6 +2152,11 @@ def run(ck: Check):
     for f in cfind:
         all_findings.append((f.sig, f.what, f.replay, f.found))
     stats.update(cstats)
+    olines, oimpl, ofind = outgoing_checks()
+    for f in ofind:
+        all_findings.append((f.sig, f.what, f.replay, f.found))
+    clines = clines + olines
+    cimpl = cimpl + oimpl
     outs = ck.driver('server', blines + clines)
     for (exp, key), line, got in zip(bexp, blines, outs[:len(blines)]):
         ck.count(('bubble-model', line))
@@ -1968,8 +2171,13 @@ def run(ck: Check):
         if a != b:
             all_findings.append((
                 'correspondence:client-recv',
-                f'_recv_handle_log_error: model `{b}` vs real `{a}` on '
-                f'`{line}`', {'sequence': line,
+                {'recv': '_recv_handle_log_error',
+                 'predrain': '_recv_log_error_until_empty',
+                 'sendrecv': 'Compiler._send_recv',
+                 'outgoing': 'ServerBase.send_outgoing'}.get(
+                     line.split()[0], line.split()[0])
+                + f': model `{b}` vs real `{a}` on `{line}`',
+                {'sequence': line,
                               'broken': 'correspondence client recv'}, False))
     ck.coverage['client_side'] = dict(cstats)
 
